@@ -12,7 +12,7 @@ CORE = "rink_core"
 
 # documented range of every numeric Match keyword (datepatterns grammar): keyword -> (digits, lo, hi)
 KEYWORD_RANGES = {"fullyear": (4, 0, 9999), "shortyear": (2, 0, 99), "century": (2, 0, 99), "monthnum": (2, 1, 12), "day": (0, 1, 31),
-                  "fullday": (2, 1, 31), "min": (2, 0, 60), "ordinal": (3, 1, 366), "isoyear": (4, 0, 9999), "isoweek": (2, 1, 53)}
+                  "fullday": (2, 1, 31), "min": (2, 0, 59), "ordinal": (3, 1, 366), "isoyear": (4, 0, 9999), "isoweek": (2, 1, 53)}
 
 
 def run(chk, F):
@@ -34,6 +34,7 @@ def run(chk, F):
     chk.guard("scale-constants", "to/from_duration", lambda: scales(chk, F))
     chk.guard("offset-arithmetic", "parse_date", lambda: offset_arith(chk, F))
     chk.guard("operator-table", "Value Add/Sub", lambda: operator_table(chk, F))
+    chk.guard("literal-fields", "datetime::attempt / parse_date", lambda: literal_fields(chk, F))
     import castaudit
     chk.guard("no-silent-wrap", "cast audit", lambda: castaudit.run(chk, F, "C14"))
     chk.floor("no-silent-wrap", 12, "(date-field casts in parse_date and DateReply::new)")
@@ -328,3 +329,61 @@ def operator_table(chk, F):
                "duration-minus-date-undefined", "%s:%d" % (fs.file, ls),
                "date - duration and date - date are defined, duration - date is not",
                "Value::sub arms: %s - `duration - date` is accepted%s" % (ps, " and evaluated as date - duration" if ("Number", "DateTime") in ps else ""))
+
+
+def literal_fields(chk, F):
+    """A written field of a date literal is either honoured or refused, never silently replaced:
+    (1) in `attempt`, the result of Parsed::to_fixed_offset is not defaulted with unwrap_or/unwrap_or_else (that reads an offset
+        that was written but is out of range as UTC); only the branch where no offset field was set may use UTC;
+    (2) in parse_date's `sec` arms, both the integer and the fractional form bound the seconds (0..=60)."""
+    fn = F.find(CORE, "parsing::datetime::attempt")
+    fk = "rink_core::parsing::datetime::attempt"
+    tf = [(bb, t) for bb, t in fn.calls() if "callee" in t and t["callee"]["path"].endswith("Parsed::to_fixed_offset")]
+    if len(tf) != 1:
+        raise AnchorLost("attempt: expected one Parsed::to_fixed_offset call, found %d" % len(tf))
+    bb, t = tf[0]
+    defaulted = [t2["callee"]["path"].split("::")[-1] for b2, t2 in fn.calls() if "callee" in t2 and t2["callee"]["path"].endswith(("::unwrap_or_else", "::unwrap_or", "::unwrap_or_default"))
+                 and any("to_fixed_offset" in ap_str(fn.apath(a)) for a in t2["args"][:1])]
+    chk.decide(not defaulted, "literal-fields", fk, "written-offset-not-defaulted", fn.where(bb),
+               "an out-of-range offset is an error; UTC is used only when no offset was written",
+               "the result of to_fixed_offset() is defaulted with %s: `#2020-01-01 10:00 +9900#` is read as UTC instead of being refused" % defaulted)
+    pd = F.find(CORE, "parsing::datetime::parse_date")
+    h = F.hir_of(pd)
+    # the `sec` arm: every inner arm that stores out.second is bounded
+    secarm = None
+    for m in hir_walk(h["body"]):
+        if m.get("k") == "Match" and m.get("src") == "Normal":
+            for a in m["arms"]:
+                if H.pat_str(a["pat"]).strip("'\"") == "sec":
+                    secarm = a
+    if secarm is None:
+        raise AnchorLost("parse_date: `sec` arm not found")
+    stores = [x for x in hir_walk(secarm["body"]) if x.get("k") == "Assign" and x["lhs"].get("k") == "Field" and x["lhs"].get("name", x["lhs"].get("field")) == "second"]
+    if not stores:
+        stores = [x for x in hir_walk(secarm["body"]) if x.get("k") == "Assign" and re.search(r"\.second$", H.expr_str(x["lhs"]))]
+    # a local is bounded when its binding carries a range pattern within 0..=60, or when it is initialised from parse_range(..)
+    # (whose bounds the keyword-table rule decides)
+    range_bound, init_of = set(), {}
+    for n in hir_walk(secarm["body"]):
+        if n.get("pk") == "bind" and (n.get("sub") or {}).get("pk") == "range":
+            r = n["sub"]
+            lo, hi = (r.get("lo") or {}).get("v"), (r.get("hi") or {}).get("v")
+            if isinstance(lo, int) and isinstance(hi, int) and lo >= 0 and (hi <= 60 if r.get("end") == "Included" else hi <= 61):
+                range_bound.add(n["lid"])
+        if n.get("k") in ("Let", "Local") and n.get("pat") and n.get("init"):
+            for b_ in hir_walk(n["pat"]):
+                if b_.get("pk") == "bind":
+                    init_of[b_["lid"]] = n["init"]
+    bounded = 0
+    for st in stores:
+        lids = [x["r"]["lid"] for x in hir_walk(st["rhs"]) if x.get("k") == "Path" and (x.get("r") or {}).get("res") == "local"]
+        ok = bool(lids)
+        for lid in lids:
+            init = init_of.get(lid)
+            from_range = init is not None and any(c.get("k") == "Path" and str((c.get("r") or {}).get("path", "")).endswith("datetime::parse_range") for c in hir_walk(init))
+            ok = ok and (lid in range_bound or from_range)
+        bounded += ok
+    chk.decide(len(stores) == 2 and bounded == 2, "literal-fields", "rink_core::parsing::datetime::parse_date", "seconds-bounded-in-both-forms", pd.where(),
+               "both forms of `sec` (integer, with fraction) bound the seconds before storing them",
+               "a form of `sec` stores seconds that were not range-checked (%d of %d stores bounded): `#2020-01-01 10:00:75.5#` is accepted "
+               "and the time silently becomes midnight" % (bounded, len(stores)))
